@@ -19,9 +19,11 @@ RULE = ("cases = (chart with an onexit marker in every state, operation sequence
         "and is followed by FINISHED; after cancel() on a chart that stabilises the run reaches FINISHED within a step budget; "
         "in the completion bracket every active state's onexit marker appears exactly once, innermost first; a blocked step() "
         "is released by cancel() from another thread; no operation crashes; destruction returns within 2 s. Metamorphic: the "
-        "trace of any continuation after reset() equals the trace of a fresh interpreter for that continuation. Forced "
+        "trace of any continuation after reset() equals the trace of a fresh interpreter for that continuation (random sequences, and "
+        "a dedicated stream on history-dense charts: events, reset, events - remembered history must be forgotten). Forced "
         "teardown schedules: the timer thread is parked between its run-flag test and event_base_loop() while the "
-        "interpreter is destroyed (create/destroy churn). non-trivial = the sequence contains cancel/reset/destroy before the "
+        "interpreter is destroyed (create/destroy churn); the timer thread is parked in the middle of delivering a delayed event (before "
+        "/ after taking the event from the queue's bookkeeping, on entry of InterpreterImpl::eventReady) while the interpreter is destroyed. non-trivial = the sequence contains cancel/reset/destroy before the "
         "natural end and an operation from a second thread; distinct = hash(document, ops)")
 ASSUMPTIONS = ["'always terminates' is checked as bounded liveness: a watchdog of 20 s per worker call (normal duration: milliseconds)",
                "charts that never stabilise (model budget) are not used for the cancel-reaches-FINISHED clause"]
@@ -79,7 +81,7 @@ def call(ctx, *args, timeout=25):
     except WorkerCrash as e:
         if e.returncode in (42, 43, 44):
             raise Failure("blocked-step-not-released", {"rc": e.returncode, "signature": "blocked-step"})
-        raise Failure("crash", {"stderr": e.stderr[-2500:], "signature": crash_signature(e.stderr)})
+        raise Failure("crash", {"stderr": crash_excerpt(e.stderr), "signature": crash_signature(e.stderr)})
     except WorkerHang:
         raise Failure("hang", {"signature": "hang"})
 
@@ -247,18 +249,56 @@ def check_churn(ctx, n, steps, mode):
               sample={"interpreters": n, "steps": steps, "mode": mode, "worst_destroy_us": r["worst_destroy_us"], "parked": r.get("park_count")})
 
 
+def check_reset_history(ctx, ch, before, after, engine):
+    """run events, reset(), run events: must equal a fresh interpreter running the second list (history, data, queues forgotten)"""
+    ops = []
+    for e in before:
+        ops += ["recv " + e, "drain"]
+    ops.append("reset")
+    for e in after:
+        ops += ["recv " + e, "drain"]
+    check_sequence(ctx, ch, ["drain"] + ops, ["cancelt"], engine)
+
+
+DELIVER_DOC = ('<scxml xmlns="http://www.w3.org/2005/07/scxml" version="1.0" datamodel="null" name="d"><state id="s0" vid="s0"><onentry>'
+               '%s</onentry><transition event="t" vid="tt"/></state></scxml>')
+
+
+def check_destroy_while_delivering(ctx, delays, point, engine):
+    """the interpreter is destroyed while its timer thread is in the middle of delivering a delayed event"""
+    sends = "".join('<send vid="send%d" event="t.%d" delay="%dms"/>' % (i, i, d) for i, d in enumerate(delays))
+    r = call(ctx, "timed", DELIVER_DOC % sends, engine, "", "until=%d park=%s parkms=60 arm=1 destroyparked" % (max(delays) + 300, point), timeout=30)
+    if r.get("exception"):
+        raise Failure("exception", {"exception": r["exception"], "signature": "destroy-exception"})
+    hit = r.get("park_count", 0) >= 1
+    for e in r["trace"]:
+        if e[0] == 'destroyed' and int(e[1]) > 2000:
+            raise Failure("slow-destruction", {"ms": e[1], "signature": "slow-destroy"})
+    ctx.count(harness.h64("destroy-delivering", json.dumps([delays, point, engine])), hit, ['destroy-while-delivering' if hit else 'destroy-window-missed'],
+              sample={"delays_ms": delays, "parked_at": point, "engine": engine})
+
+
 def shard_main(ctx):
     p = ctx.params
     mod = sys.modules[__name__]
     if ctx.shard == 0:
         ctx.replay_corpus(mod)
-    o = gen.GenOpts(max_states=5, history=False, data=False, conds=False, late_binding=False, content=True, faults=False,
-                    descriptors=[['a'], ['b'], ['c'], ['*']])
+    o = gen.GenOpts(max_states=6, history=True, history_weight=3, hist_target_weight=3, data=False, conds=False, late_binding=False, content=True,
+                    faults=False, descriptors=[['a'], ['b'], ['c'], ['*']])
     wakes = st.lists(st.sampled_from(["cancelt", "recvt a", "recvt b", "cancelt"]), min_size=1, max_size=4)
     for engine in ("large", "fast"):
         ctx.run_hypothesis([gen.charts(o, 'lua'), ops_s, wakes], lambda ch, ops, wk, engine=engine: check_sequence(ctx, ch, ops, wk, engine),
                            p["seqs"] // (2 * ctx.nshards) + 1,
                            lambda ch, ops, wk, engine=engine: dict(case_repr(ch, []), ops=ops, wakes=wk, engine=engine), name=engine)
+    hp = gen.history_profile()
+    hp.content = True
+    for engine in ("large", "fast"):
+        ctx.run_hypothesis([gen.charts(hp, 'lua'), gen.event_histories(8, ['a', 'b']), gen.event_histories(8, ['a', 'b'])],
+                           lambda ch, ev1, ev2, engine=engine: check_reset_history(ctx, ch, ev1, ev2, engine), p["seqs"] // (8 * ctx.nshards) + 1,
+                           lambda ch, ev1, ev2, engine=engine: dict(case_repr(ch, []), reset_history=[ev1, ev2], engine=engine), name="resethist-" + engine)
+    ctx.run_hypothesis([st.lists(st.sampled_from([1, 2, 5, 10, 20]), min_size=1, max_size=4), st.sampled_from(["dq.timer.window", "dq.timer.entry", "ii.eventReady"]),
+                        st.sampled_from(["large", "fast"])], lambda d, pt, e: check_destroy_while_delivering(ctx, d, pt, e), p["churn"] // ctx.nshards + 1,
+                       lambda d, pt, e: {"destroy_delivering": [d, pt, e]}, name="destroy-delivering")
     ctx.run_hypothesis([st.integers(3, 12), st.integers(0, 6), st.sampled_from(['park', 'plain', 'park'])],
                        lambda n, steps, mode: check_churn(ctx, n, steps, mode), p["churn"] // ctx.nshards + 1,
                        lambda n, steps, mode: {"churn": [n, steps, mode]}, name="churn")
@@ -266,8 +306,13 @@ def shard_main(ctx):
 
 def replay(ctx, case):
     try:
-        if "churn" in case:
+        if "destroy_delivering" in case:
+            check_destroy_while_delivering(ctx, *case["destroy_delivering"])
+        elif "churn" in case:
             check_churn(ctx, *case["churn"])
+        elif "reset_history" in case:
+            ch, _ = harness.unpack(case["pickle"])
+            check_reset_history(ctx, ch, case["reset_history"][0], case["reset_history"][1], case.get("engine", "large"))
         else:
             ch, _ = harness.unpack(case["pickle"])
             check_sequence(ctx, ch, case["ops"], case["wakes"], case.get("engine", "large"))
